@@ -192,6 +192,19 @@ func (m *Monitor) onEventSync(n *Node, msg interface{}) {
 			m.report("C03", "unlinked-block-appended", "previousBlockID", "%s appended block %d/%s whose previousBlockID is %s on top of its tip %s", n.Name, e.Block.Header.Height, short(e.Block.Header.ID), short(e.Block.Header.PreviousBlockID), short([]byte(prev)))
 		}
 		m.tipOf[n.ID] = string(e.Block.Header.ID)
+		if !n.IsAdversary {
+			// the payload rules hold for every block an honest node appends, whichever way it came
+			size := 0
+			for i, tx := range e.Block.Transactions {
+				size += tx.Size()
+				if err := tx.Validate(); err != nil {
+					m.report("C03", "invalid-payload-appended", "statically-invalid-transaction", "%s appended block %d/%s whose transaction %d (%s) is not statically valid: %v", n.Name, e.Block.Header.Height, short(e.Block.Header.ID), i, short(tx.ID), err)
+				}
+			}
+			if size > int(m.W.P.MaxTxSize) {
+				m.report("C03", "invalid-payload-appended", "payload-over-size-limit", "%s appended block %d/%s whose payload is %d bytes, the limit is %d", n.Name, e.Block.Header.Height, short(e.Block.Header.ID), size, m.W.P.MaxTxSize)
+			}
+		}
 		if m.expectOwn[n.ID] && m.isOwnKey(n, e.Block.Header.GeneratorAddress) {
 			// the block this node generated in this step: its payload against the selection rule
 			pool := m.poolBefore[n.ID]
